@@ -100,32 +100,52 @@ def gen_case(rnd, thorough, force=None):
     ops = [["N", str(k)] for k in range(nslots)]
     pgms = [0.0, 0.0, 1.0, 0.5, 0.1, 0.02]
     only = force.get("only")
+    # the problem object can be reused with another code / patch length (op E): individuals of different sizes
+    # live side by side and are mutated through a problem they were not created with
+    R0, patch0 = R, patch
+    size = {k: R for k in range(nslots)}
+    maxpatch = patch
+    vary = force.get("vary", (not only) and rnd.random() < 0.5)
     for _ in range(nops):
         k = rnd.randrange(nslots)
         kinds = ["M", "M", "X", "X", "X", "A", "N"] if team else \
                 ["M", "M", "X", "X", "X", "B", "R", "D", "C", "C", "A", "N", "W", "W"]
+        if vary:
+            kinds = kinds + ["E", "E", "M"]
         op = rnd.choice(kinds) if not only else rnd.choice(only)
-        if op == "M":
+        Rk = size[k]
+        if op == "E":
+            smallest = min(size.values())
+            R = rnd.choice([rnd.randint(2, 6), rnd.randint(2, 40), max(2, R - 1), min(40, R + 1), min(40, R + rnd.randint(1, 8))])
+            patch = rnd.randint(1, max(1, min(4, R - 1, smallest - 1)))
+            maxpatch = max(maxpatch, patch)
+            ops.append(["E", str(R), str(patch)])
+            if rnd.random() < 0.6:
+                ops.append(["N", str(k)])
+                size[k] = R
+        elif op == "M":
             p = rnd.choice(pgms) if rnd.random() < 0.8 else rnd.random()
             ops.append(["M", str(k), dhex(p)])
         elif op == "X":
-            a, b = rnd.randrange(nslots), rnd.randrange(nslots)
+            a = rnd.randrange(nslots)
+            b = rnd.choice([x for x in range(nslots) if size[x] == size[a]])      # Expects(lhs.size() == rhs.size())
             if rnd.random() < 0.85:
                 fl = force.get("flavour", rnd.randrange(4))
                 ops.append(["F", str(a), str(fl)])
                 ops.append(["F", str(b), str(fl)])
             ops.append(["X", str(a), str(b), str(k)])
+            size[k] = size[a]
         elif op == "B":
-            ops.append(["B", str(k), str(rnd.randrange(R)), str(rnd.randrange(ncats))])
+            ops.append(["B", str(k), str(rnd.randrange(Rk)), str(rnd.randrange(ncats))])
         elif op == "R":
-            idx, cat = rnd.randrange(R), rnd.randrange(ncats)
+            idx, cat = rnd.randrange(Rk), rnd.randrange(ncats)
             if rnd.random() < 0.3:
-                idx = rnd.randrange(max(0, R - patch - 1), R)      # around the patch boundary
-            g = gen_replace_gene(rnd, syms, R, patch, idx, cat)
+                idx = rnd.randrange(max(0, Rk - maxpatch - 1), Rk)      # around the patch boundary
+            g = gen_replace_gene(rnd, syms, Rk, maxpatch, idx, cat)
             if g:
                 ops.append(["R", str(k), str(idx), str(cat)] + g)
         elif op == "D":
-            ops.append(["D", str(k), str(rnd.randrange(R))])
+            ops.append(["D", str(k), str(rnd.randrange(Rk))])
         elif op == "C":
             ops.append(["C", str(k)])
         elif op == "A":
@@ -134,6 +154,8 @@ def gen_case(rnd, thorough, force=None):
             ops.append(["W", str(k)])
         else:
             ops.append(["N", str(k)])
+            size[k] = R
+    R, patch = R0, patch0
     hdr = ["T" if team else "I", str(rnd.randrange(1, 2**31)), str(R), str(patch), str(tsize), str(nslots)]
     return {"hdr": hdr, "ncats": ncats, "syms": syms, "ops": ops}
 
@@ -218,7 +240,8 @@ def case_line(case, nops=None):
 
 # ------------------------------------------------------------------ evaluation
 OPNAME = {"N": "construction", "M": "mutation", "X": "crossover", "B": "get_block", "R": "replace",
-          "D": "destroy_block", "C": "cse", "A": "inc_age", "F": "force_flavour", "W": "iterator_walk_and_blocks"}
+          "D": "destroy_block", "C": "cse", "A": "inc_age", "F": "force_flavour", "W": "iterator_walk_and_blocks",
+          "E": "problem_resized"}
 
 
 def judge(case, hline, mline, crash=None):
@@ -246,7 +269,19 @@ def judge(case, hline, mline, crash=None):
     if "wf_sset=1" not in mrec[0]:
         diffs.append((0, mrec[0], "symbol set rejected by wf_sset_b"))
     okslot = {}
+    cur_R, size = R, {}
     for i, o in enumerate(ops):
+        if o[0] == "E":                       # the problem's code / patch length changes: nothing to compare
+            cur_R = int(o[1])
+            stats["problem_resized"] = stats.get("problem_resized", 0) + 1
+            continue
+        if o[0] == "N":
+            size[int(o[1])] = cur_R
+        elif o[0] == "X":
+            size[int(o[3])] = size.get(int(o[1]), cur_R)
+        R = size.get(int(o[1]), cur_R)        # the size of the individual this operation works on
+        if o[0] == "M" and R != cur_R:
+            stats["mutation_under_other_code_length"] = stats.get("mutation_under_other_code_length", 0) + 1
         hd, hextra, hdump = hrec[i + 1].split(" # ")
         mf = mrec[i + 1].split(" # ")
         mdump, mcnt, mrest, flags = mf[0], mf[1], mf[2], mf[3] if len(mf) > 3 else ""
@@ -440,6 +475,12 @@ def run(ck):
                                                       "ncats": rnd.choice([2, 3, 4])}))
         for _ in range(70 if not ck.thorough else 1200):
             cases.append(gen_near_case(rnd, ck.thorough))
+        # one problem object reused across code / patch lengths: individuals (and teams) mutated through a
+        # problem they were not created with
+        nv = 150 if not ck.thorough else 3000
+        for _ in range(nv):
+            cases.append(gen_case(rnd, ck.thorough, {"vary": True, "team": rnd.random() < 0.25}))
+        n += nv
         n += len([c for c in cases if c.get("family")])
         while len(cases) < n:
             cases.append(gen_case(rnd, ck.thorough))
